@@ -144,7 +144,7 @@ type State struct {
 	callCounts map[string]int
 	meta       map[string]Val
 	retHeaps   map[string]map[string]Term // callee name -> heap when its most recent call returned (spec: after("pat", e))
-	seenRefs   []Term // references observed so far on this path (a later allocation differs from all of them)
+	seenRefs   []Term                     // references observed so far on this path (a later allocation differs from all of them)
 }
 
 func (s *State) clone() *State {
